@@ -10,8 +10,8 @@ SIM = dict(MaxStmts=30, MaxDepth=5, MaxUnits=3, MaxVar=30, UnitKinds="AllUnits",
            SimpleV="SimpleAll", DeclV="DeclAll", UseV="UseAll", FormatV="FormatAll", CompV="CompAll", TbindV="TbindAll",
            NameChoices="Set01", EndForms="Set012", LabelStmts="TRUE", Contains="TRUE", InsSet="InsAll", MinEdits=1, Randomised="TRUE", DumpMod=1, NRepl=17, RichOnly="FALSE", NeedStruct="FALSE", MaxRich="<- Unlimited")
 TABLE = {
-    "Perturb_c11_quick": dict(BASE, PKinds="KCmt", MaxEdits=1, DumpMod=16),
-    "Perturb_c11_thorough": dict(BASE, PKinds="KCmt", MaxEdits=1, DumpMod=2),
+    "Perturb_c11_quick": dict(BASE, UnitKinds="ExhUnits0", PKinds="KCmt", MaxEdits=1, DumpMod=16),
+    "Perturb_c11_thorough": dict(BASE, UnitKinds="ExhUnits0", PKinds="KCmt", MaxEdits=1, DumpMod=2),
     "Perturb_c11_sim": dict(SIM, PKinds="KCmt", MaxEdits=5),
     # two statements on one line (';') with a trailing comment behind them
     "Perturb_c11j_quick": dict(BASE, PKinds="KCmtJoin", MaxEdits=1, DumpMod=9),
@@ -22,11 +22,11 @@ TABLE = {
                                SimpleV="StrSplitS", DeclV="StrSplitDecl", MaxRich="<- Unlimited", NameChoices="Set1", EndForms="Set02", DumpMod=3),
     "Perturb_c11s_thorough": dict(BASE, PKinds="KCmt", MaxEdits=2, MaxStmts=2, UnitKinds="SubOnly", ConKinds="Empty", SpecKinds="Empty", Contains="FALSE",
                                   SimpleV="StrSplitS", DeclV="StrSplitDecl", MaxRich="<- Unlimited", NameChoices="Set1", EndForms="Set02", DumpMod=3),
-    "Perturb_c14_quick": dict(BASE, PKinds="KCpp", MaxEdits=1, DumpMod=16),
-    "Perturb_c14_thorough": dict(BASE, PKinds="KCpp", MaxEdits=1, DumpMod=3),
+    "Perturb_c14_quick": dict(BASE, UnitKinds="ExhUnits0", PKinds="KCpp", MaxEdits=1, DumpMod=16),
+    "Perturb_c14_thorough": dict(BASE, UnitKinds="ExhUnits0", PKinds="KCpp", MaxEdits=1, DumpMod=3),
     "Perturb_c14_sim": dict(SIM, PKinds="KCmtCpp", MaxEdits=5),
-    "Perturb_c07_quick": dict(BASE, PKinds="KGarb", MaxEdits=1, DumpMod=8),
-    "Perturb_c07_thorough": dict(BASE, PKinds="KGarb", MaxEdits=1, DumpMod=1),
+    "Perturb_c07_quick": dict(BASE, UnitKinds="ExhUnits0", PKinds="KGarb", MaxEdits=1, DumpMod=8),
+    "Perturb_c07_thorough": dict(BASE, UnitKinds="ExhUnits0", PKinds="KGarb", MaxEdits=1, DumpMod=1),
     "Perturb_c07_sim": dict(SIM, PKinds="KGarbLay", MaxEdits=4),
     # garbage in every position of sequences of two program units of every kind (a headerless main program first or last ...)
     "Perturb_c07u_quick": dict(BASE, PKinds="KGarb", MaxEdits=1, MaxStmts=4, MaxDepth=1, MaxUnits=2, UnitKinds="AllUnits", ConKinds="Empty", SpecKinds="Empty",
@@ -49,11 +49,11 @@ TABLE = {
                                NameChoices="Set0", EndForms="Set02", Contains="FALSE", DumpMod=1),
     "Perturb_c08c_quick": dict(BASE, PKinds="KStruct", MaxEdits=1, ConKinds="NestCons2", SpecKinds="AllSpec", UnitKinds="SubMod", DumpMod=23),
     "Perturb_c08c_thorough": dict(BASE, PKinds="KStruct", MaxEdits=1, ConKinds="NestCons2", SpecKinds="AllSpec", UnitKinds="SubMod", DumpMod=3),
-    "Perturb_c13_quick": dict(BASE, PKinds="KInc", MaxEdits=2, DumpMod=32),
-    "Perturb_c13_thorough": dict(BASE, PKinds="KInc", MaxEdits=2, DumpMod=4),
+    "Perturb_c13_quick": dict(BASE, UnitKinds="ExhUnits0", PKinds="KInc", MaxEdits=2, DumpMod=32),
+    "Perturb_c13_thorough": dict(BASE, UnitKinds="ExhUnits0", PKinds="KInc", MaxEdits=2, DumpMod=4),
     "Perturb_c13_sim": dict(SIM, PKinds="KInc", MaxEdits=3),
-    "Perturb_c04_quick": dict(BASE, PKinds="KLayout1", MaxEdits=1, DumpMod=9),
-    "Perturb_c04_thorough": dict(BASE, PKinds="KLayout1", MaxEdits=1, DumpMod=2),
+    "Perturb_c04_quick": dict(BASE, UnitKinds="ExhUnits0", PKinds="KLayout1", MaxEdits=1, DumpMod=9),
+    "Perturb_c04_thorough": dict(BASE, UnitKinds="ExhUnits0", PKinds="KLayout1", MaxEdits=1, DumpMod=2),
     "Perturb_c04_sim": dict(SIM, PKinds="KLayout", MaxEdits=8, MinEdits=4),
     # every catalogue variant (at most one non-default variant per program) continued at every token boundary, in every continuation style
     "Perturb_c04v_exec_quick": dict(BASE, MaxStmts=2, MaxRich="= 1", MaxVar=30, UnitKinds="SubOnly", ConKinds="SweepCons", SpecKinds="Empty", SimpleV="SimpleAll", PKinds="KBrk",
